@@ -7,9 +7,17 @@
     the objective documented by linfa-elasticnet.  [RQ] / [RQ2] map rational data to the reals.
     The checkers [ols_ok], [enet_ok], [enet_ok_fixed] (C11/Model.v) are the functions that every
     run of `./check C11` evaluates by vm_compute on the implementation's outputs; [eps_of e2] is
-    sqrt e2, the tolerance whose square the checker was given. *)
+    sqrt e2, the tolerance whose square the checker was given.
+
+    The coordinate-descent theorems (second half of the file) are about [cd_sweep], [cd_loop],
+    [coordinate_descent] of C11/Model.v - the Gallina terms replayed bit for bit at binary64 / binary32
+    against the implementation - instantiated over the reals with [RXe e]: e is the tolerance of
+    approx::abs_diff_eq!/abs_diff_ne! (2^-52 in the implementation, [RX] = [RXe 2^-52]); e = 0 reads the
+    tests `abs_diff_eq!(a, 0)` as `a = 0`.  [band_free e w]: no coefficient lies in the band 0 < |w_j| <= e.
+    [objective cols y (repeat l1 p) (repeat l2 p) w] = 1/2 |y - X w|^2 + l1 |w|_1 + l2/2 |w|^2 is n times the
+    documented objective for l1 = n*l1_ratio*penalty, l2 = n*(1-l1_ratio)*penalty (y: the centred target). *)
 From Coq Require Import List QArith Qreals Reals.
-From LinfaVerif Require Import Common.Num Common.NdSum Common.QF Common.Convex C11.Model C11.Proofs.
+From LinfaVerif Require Import Common.Num Common.NdSum Common.QF Common.Convex C11.Model C11.Proofs C11.Descent C11.OlsGap.
 Import ListNotations.
 Local Open Scope R_scope.
 
@@ -169,3 +177,183 @@ Theorem mtl_ok_sound : forall (cols Ys Ws : list (list Q)) (l1 l2 : Q) (e2s : li
   >= mobjective (RQ2 cols) (RQ2 Ys) (Q2R l1) (Q2R l2) (RQ2 Ws)
      - Rdot (EPS e2s) (rowdist (trans (length cols) Ws') (trans (length cols) (RQ2 Ws))).
 Proof. exact Proofs.mtl_ok_sound. Qed.
+
+(* ------------------------------------------------------------------------------------------- *)
+(** * the coordinate-descent algorithm itself (for all inputs, exact arithmetic) *)
+
+(** T2.  The coordinate update minimises the objective along its coordinate:
+    f(v) = 1/2 nj v^2 - tmp v + l1 |v| + l2/2 v^2 is the objective as a function of w_j (up to a constant),
+    tmp = x_j.(r + w_j x_j), nj = |x_j|^2. *)
+Theorem cd_update_minimises_coordinate : forall l1r pen nF tmp nj t : R,
+  0 <= nF * l1r * pen -> 0 <= nF * (1 - l1r) * pen -> 0 <= nj -> 0 < nj + nF * (1 - l1r) * pen ->
+  let wn := cd_new_w R_ops RX l1r pen nF tmp nj in
+  let f v := / 2 * nj * (v * v) - tmp * v + pen1 (nF * l1r * pen) (nF * (1 - l1r) * pen) v in
+  f wn <= f t.
+Proof. exact Descent.cd_update_minimises. Qed.
+
+(** T2.  One sweep `for j in 0..n_features` started with the true residual never increases the objective and
+    returns the true residual of the new coefficients - provided no coefficient before or after the sweep
+    lies in the band (0, e] (columns with |x_j|^2 <= e are skipped: coefficient and residual untouched) ... *)
+Theorem cd_sweep_noninc : forall (cc : bool) (l1r pen nF e : R) (cols : list (list R)) (y w : list R)
+                                 (wmax dwmax : R) (w2 r2 : list R) (m : R * R),
+  0 <= nF * l1r * pen -> 0 <= nF * (1 - l1r) * pen -> 0 <= e ->
+  Forall (fun c => length c = length y) cols -> length w = length cols ->
+  cd_sweep R_ops (RXe e) cc l1r pen nF cols (map (fun c => dot R_ops cc c c) cols) w (residual cols y w) wmax dwmax
+    = (w2, (r2, m)) ->
+  band_free e w -> band_free e w2 ->
+  let p := length cols in
+  let P v := objective cols y (repeat (nF * l1r * pen) p) (repeat (nF * (1 - l1r) * pen) p) v in
+  length w2 = length cols /\ r2 = residual cols y w2 /\ P w2 <= P w.
+Proof. exact Descent.cd_sweep_noninc. Qed.
+
+(** ... in particular for every input when the tests are read exactly (e = 0) ... *)
+Theorem cd_sweep_noninc_exact : forall (cc : bool) (l1r pen nF : R) (cols : list (list R)) (y w : list R)
+                                       (wmax dwmax : R) (w2 r2 : list R) (m : R * R),
+  0 <= nF * l1r * pen -> 0 <= nF * (1 - l1r) * pen ->
+  Forall (fun c => length c = length y) cols -> length w = length cols ->
+  cd_sweep R_ops (RXe 0) cc l1r pen nF cols (map (fun c => dot R_ops cc c c) cols) w (residual cols y w) wmax dwmax
+    = (w2, (r2, m)) ->
+  let p := length cols in
+  let P v := objective cols y (repeat (nF * l1r * pen) p) (repeat (nF * (1 - l1r) * pen) p) v in
+  length w2 = length cols /\ r2 = residual cols y w2 /\ P w2 <= P w.
+Proof. exact Descent.cd_sweep_noninc_exact. Qed.
+
+(** ... while with the literal tolerance 2^-52 the band matters (refuted by a witness: three copies of the
+    column (1), target 2^-52, no penalty - every update returns 2^-52, which abs_diff_ne!(w_j, 0) treats as
+    zero, so the coefficients are stored without the residual being updated; the objective quadruples).
+    Same class as finding F50: an absolute tolerance on a scale-dependent quantity. *)
+Theorem cd_sweep_band_refuted :
+  exists (cols : list (list R)) (y w w2 r2 : list R) (m : R * R),
+    cd_sweep R_ops RX false 0 0 1 cols (map (fun c => dot R_ops false c c) cols) w (residual cols y w) 0 0 = (w2, (r2, m))
+    /\ r2 <> residual cols y w2
+    /\ objective cols y (repeat 0 3) (repeat 0 3) w < objective cols y (repeat 0 3) (repeat 0 3) w2.
+Proof. exact Descent.cd_sweep_band_refuted. Qed.
+
+(** T2.  A sweep that returns the coefficients it was given certifies the first-order conditions of every
+    coordinate exactly, hence global optimality (kkt_optimal) - provided skipped columns are zero columns
+    with zero coefficient and no coefficient lies in the band ... *)
+Theorem cd_fixed_point_is_kkt : forall (cc : bool) (l1r pen nF e : R) (cols : list (list R)) (y w : list R)
+                                       (wmax dwmax : R) (r2 : list R) (m : R * R),
+  0 <= nF * l1r * pen -> 0 <= nF * (1 - l1r) * pen -> 0 <= e ->
+  Forall (fun c => length c = length y) cols ->
+  Forall2 (fun c t => sq c <= e -> sq c = 0 /\ t = 0) cols w -> band_free e w ->
+  cd_sweep R_ops (RXe e) cc l1r pen nF cols (map (fun c => dot R_ops cc c c) cols) w (residual cols y w) wmax dwmax
+    = (w, (r2, m)) ->
+  let p := length cols in
+  let l1s := repeat (nF * l1r * pen) p in
+  let l2s := repeat (nF * (1 - l1r) * pen) p in
+  kkt_all (map (fun c => Rdot c (residual cols y w)) cols) l1s l2s w (repeat 0 p)
+  /\ forall w', length w' = length w -> objective cols y l1s l2s w' >= objective cols y l1s l2s w.
+Proof. exact Descent.cd_fixed_point_is_kkt. Qed.
+
+(** ... for e = 0: zero columns carry a zero coefficient (true of everything the solver produces,
+    [cd_result_zero_columns]) ... *)
+Theorem cd_fixed_point_is_kkt_exact : forall (cc : bool) (l1r pen nF : R) (cols : list (list R)) (y w : list R)
+                                             (wmax dwmax : R) (r2 : list R) (m : R * R),
+  0 <= nF * l1r * pen -> 0 <= nF * (1 - l1r) * pen ->
+  Forall (fun c => length c = length y) cols ->
+  Forall2 (fun c t => sq c = 0 -> t = 0) cols w ->
+  cd_sweep R_ops (RXe 0) cc l1r pen nF cols (map (fun c => dot R_ops cc c c) cols) w (residual cols y w) wmax dwmax
+    = (w, (r2, m)) ->
+  let p := length cols in
+  let l1s := repeat (nF * l1r * pen) p in
+  let l2s := repeat (nF * (1 - l1r) * pen) p in
+  kkt_all (map (fun c => Rdot c (residual cols y w)) cols) l1s l2s w (repeat 0 p)
+  /\ forall w', length w' = length w -> objective cols y l1s l2s w' >= objective cols y l1s l2s w.
+Proof. exact Descent.cd_fixed_point_is_kkt_exact. Qed.
+
+Theorem cd_result_zero_columns : forall (cc : bool) (l1r pen nF e : R) (cols : list (list R)) (y : list R) (tol : R)
+                                        (maxit : N) (w : list R) (g : R) (s : N),
+  coordinate_descent R_ops (RXe e) cc l1r pen nF cols y tol maxit = (w, (g, s)) ->
+  Forall2 (fun c t => sq c <= e -> t = 0) cols w.
+Proof. exact Descent.cd_result_zero_columns. Qed.
+
+(** ... and finding F50 as a statement about the model with the literal tolerance: a column of squared norm
+    2^-54 is skipped, w = 0 is a fixed point of the sweep, yet another coefficient fits the target exactly. *)
+Theorem cd_fixed_point_eps_refuted :
+  exists (cols : list (list R)) (y w w' r2 : list R) (m : R * R),
+    cd_sweep R_ops RX false 0 0 1 cols (map (fun c => dot R_ops false c c) cols) w (residual cols y w) 0 0 = (w, (r2, m))
+    /\ length w' = length w
+    /\ objective cols y (repeat 0 1) (repeat 0 1) w' < objective cols y (repeat 0 1) (repeat 0 1) w.
+Proof. exact Descent.cd_fixed_point_eps_refuted. Qed.
+
+(** T2.  The whole solver `coordinate_descent` (w = 0, r = y, sweeps, stopping rule, duality gap) over the
+    reals with the tests read exactly: the returned point is never worse than w = 0; its reported gap - unless
+    it still is the initial value 1 + tol because the stopping test never fired - bounds the suboptimality of
+    the returned point against every coefficient vector, also when the budget ran out and the gap is that of
+    an earlier iterate; a run that stopped early (n_steps < max_iterations) has gap < tol * |y|^2. *)
+Theorem cd_result_certified : forall (cc : bool) (l1r pen nF : R) (cols : list (list R)) (y : list R) (tol : R)
+                                     (maxit : N) (w : list R) (g : R) (s : N),
+  0 <= nF * l1r * pen -> 0 <= nF * (1 - l1r) * pen ->
+  Forall (fun c => length c = length y) cols ->
+  coordinate_descent R_ops (RXe 0) cc l1r pen nF cols y tol maxit = (w, (g, s)) ->
+  let p := length cols in
+  let P v := objective cols y (repeat (nF * l1r * pen) p) (repeat (nF * (1 - l1r) * pen) p) v in
+  length w = p /\ P w <= P (repeat 0 p)
+  /\ (g = 1 + tol \/ forall v, length v = p -> P w - P v <= g)
+  /\ ((s < maxit)%N -> g < tol * sq y).
+Proof. exact Descent.cd_result_certified. Qed.
+
+(* ------------------------------------------------------------------------------------------- *)
+(** * uniqueness of the least-squares solution *)
+
+(** T2.  Full column rank of [X 1] (the only (v, c) with X v + c = 0 is 0): two minimisers of the sum of
+    squared errors coincide, so the point certified by [ols_ok_sound] with eps = 0 is THE solution. *)
+Theorem ols_unique : forall (cols : list (list R)) (y w1 : list R) (b1 : R) (w2 : list R) (b2 : R),
+  Forall (fun c => length c = length y) cols -> length w1 = length cols -> length w2 = length cols ->
+  (forall (v : list R) (c : R), length v = length cols ->
+     predictions cols (length y) v c = repeat 0 (length y) -> v = repeat 0 (length cols) /\ c = 0) ->
+  (forall w' b', length w' = length cols -> sse cols y w' b' >= sse cols y w1 b1) ->
+  (forall w' b', length w' = length cols -> sse cols y w' b' >= sse cols y w2 b2) ->
+  w1 = w2 /\ b1 = b2.
+Proof. exact OlsGap.ols_unique. Qed.
+
+Theorem ols_unique_noint : forall (cols : list (list R)) (y w1 w2 : list R),
+  Forall (fun c => length c = length y) cols -> length w1 = length cols -> length w2 = length cols ->
+  (forall v : list R, length v = length cols ->
+     lin (length y) cols v = repeat 0 (length y) -> v = repeat 0 (length cols)) ->
+  (forall w', length w' = length cols -> sse cols y w' 0 >= sse cols y w1 0) ->
+  (forall w', length w' = length cols -> sse cols y w' 0 >= sse cols y w2 0) ->
+  w1 = w2.
+Proof. exact OlsGap.ols_unique_noint. Qed.
+
+(* ------------------------------------------------------------------------------------------- *)
+(** * the reported duality gap and the intercept (finding F7) *)
+
+(** T2.  For every input: the gap the solver computes on the centred target y - b (b = mean y) bounds the
+    suboptimality of w, in units of n times the documented objective, FOR THAT FIXED INTERCEPT ... *)
+Theorem gap_bounds_fixed_intercept : forall (cc : bool) (cols : list (list R)) (y : list R) (b penalty l1_ratio : R)
+                                            (w w' : list R),
+  Forall (fun c => length c = length y) cols -> length w = length cols -> length w' = length cols ->
+  (0 < length y)%nat -> 0 <= penalty -> 0 <= l1_ratio <= 1 ->
+  let n := INR (length y) in
+  let yc := map (fun v => v - b) y in
+  n * (enet_objective cols y penalty l1_ratio w b - enet_objective cols y penalty l1_ratio w' b)
+  <= duality_gap R_ops RX cc l1_ratio penalty n cols yc w (residual cols yc w).
+Proof. exact OlsGap.gap_bounds_fixed_intercept. Qed.
+
+(** ... jointly in coefficients and intercept when every feature column sums to zero (outside F7) ... *)
+Theorem gap_bounds_joint_centred : forall (cc : bool) (cols : list (list R)) (y : list R) (penalty l1_ratio : R)
+                                          (w w' : list R) (b' : R),
+  Forall (fun c => length c = length y) cols -> length w = length cols -> length w' = length cols ->
+  (0 < length y)%nat -> 0 <= penalty -> 0 <= l1_ratio <= 1 ->
+  Forall (fun c => Rsum c = 0) cols ->
+  let n := INR (length y) in
+  let ybar := Rsum y / n in
+  let yc := map (fun v => v - ybar) y in
+  n * (enet_objective cols y penalty l1_ratio w ybar - enet_objective cols y penalty l1_ratio w' b')
+  <= duality_gap R_ops RX cc l1_ratio penalty n cols yc w (residual cols yc w).
+Proof. exact OlsGap.gap_bounds_joint_centred. Qed.
+
+(** ... and not jointly on un-centred features: at the F7 witness (x = 10..13, y = 1..4, penalty 0.1,
+    l1_ratio 0.5, w = 24/2671, intercept mean y) the reported gap is exactly 0 although another
+    (w', b') has a strictly smaller objective. *)
+Theorem gap_joint_refuted :
+  exists (cols : list (list R)) (y : list R) (penalty l1_ratio : R) (w : list R),
+    let n := INR (length y) in
+    let ybar := Rsum y / n in
+    let yc := map (fun v => v - ybar) y in
+    duality_gap R_ops RX false l1_ratio penalty n cols yc w (residual cols yc w) = 0
+    /\ exists (w' : list R) (b' : R),
+         enet_objective cols y penalty l1_ratio w' b' < enet_objective cols y penalty l1_ratio w ybar.
+Proof. exact OlsGap.gap_joint_refuted. Qed.
